@@ -76,7 +76,48 @@ def c11(run):
     return R.finish(run, GAPS.get("C11", []))
 
 
+def sched_runs(run, harness, kinds, focus, tags, quick=(60, 6), thorough=(1500, 10), lin=True, label=""):
+    nprog, nsched = Q(run, quick, thorough)
+    seeds = [run.seed] if run.tier == "quick" else [run.seed, run.seed + 1]
+    for kind in kinds:
+        for sd in seeds:
+            args = ["kind=" + kind, "seed=%d" % sd, "nprog=%d" % nprog, "nsched=%d" % nsched]
+            if focus:
+                args.append("focus=" + focus)
+            R.sched_exploration(run, harness, "sched_%s%s_%s_s%d" % (label, focus or "mix", kind, sd), args, tags, lin=lin)
+
+
+def c02(run):
+    usable = common(run, ["CacheVerif.Props.C02"])
+    h, err = R.build_harness(run, "sched")
+    run.oblige("go build -overlay of the harness from the working tree (sched mode)", h is not None, err)
+    if usable and h:
+        sched_runs(run, h, ("cache", "cacheof"), "", ("NONLIN", "PREFILL"))
+    return R.finish(run, GAPS.get("C02", []))
+
+
+def c03(run):
+    usable = common(run, ["CacheVerif.Props.C03"])
+    h, err = R.build_harness(run, "sched")
+    run.oblige("go build -overlay of the harness from the working tree (sched mode)", h is not None, err)
+    if usable and h:
+        sched_runs(run, h, ("map",), "", ("NONLIN", "PREFILL"), quick=(150, 6))
+    return R.finish(run, GAPS.get("C03", []))
+
+
+def c04(run):
+    usable = common(run, ["CacheVerif.Props.C04"])
+    h, err = R.build_harness(run, "sched")
+    run.oblige("go build -overlay of the harness from the working tree (sched mode)", h is not None, err)
+    if usable and h:
+        sched_runs(run, h, ("mapof",), "", ("NONLIN", "PREFILL"), quick=(150, 6))
+    return R.finish(run, GAPS.get("C04", []))
+
+
 PROPS = {
+    "C03": c03,
+    "C04": c04,
+    "C02": c02,
     "C11": c11,
     "C01": c01,
 }
@@ -115,6 +156,29 @@ def replay(run, path):
             flag = "" if R.spec_ok(a, c) else "   <-- contradicts the reference semantics"
             bad |= bool(flag)
             print("%-40s impl: %-30s model: %-30s spec: %s%s" % (o, a, b, c, flag))
+        R.sh(["rm", "-rf", run.work])
+        return 1 if bad else 0
+    if p.get("kind") == "schedule":
+        R.build_tools(run)
+        harness, err = R.build_harness(run, "sched")
+        if harness is None:
+            print(err)
+            return 2
+        d = run.work
+        R.sh([harness, "sched", "out=" + d] + p["harness_args"], timeout=3000)
+        hs = R.parse_hists(os.path.join(d, "hist.txt"))
+        lines = hs.get(p["history_id"], [])
+        print("\n".join(lines))
+        open(os.path.join(d, "one.txt"), "w").write("\n".join(lines) + "\n")
+        import subprocess
+        with open(os.path.join(d, "one.txt"), "rb") as fin:
+            q = subprocess.run([R.DRIVER, "--lin"], stdin=fin, stdout=subprocess.PIPE)
+        print("linearizability (Lean, against Spec):", q.stdout.decode().strip())
+        bad = "OK" not in q.stdout.decode()
+        for l in R.read_lines(os.path.join(d, "monitors.txt")):
+            if l.startswith(p["history_id"] + " "):
+                print("monitor:", l)
+                bad = True
         R.sh(["rm", "-rf", run.work])
         return 1 if bad else 0
     print(json.dumps(p, indent=1))
